@@ -36,6 +36,11 @@ JUNK = {
     'object': [{}, {'a': 1}, {'type': 'x'}, {'0': {}}, {'type': 'file', 'name': 5}],
     'nested': [{'a': [{'b': None}]}, [[[[]]]], {'extensions': {'x': []}}, {'objects': [{}]}],
     'empty': ['', [], {}, ' ', '\u0000'],
+    # the right JSON kind, an unusual spelling: timestamps as other software writes them
+    'odd_ts': ['2017-01-20T00:00:00.0000000Z', '2017-01-20T00:00:00.123456789Z', '2017-01-20T00:00:00.000+00:00', '2017-01-20T01:00:00.000+01:00',
+               '2017-01-20T00:00:00.000', '2017-01-20 00:00:00Z', '2017-01-20T00:00:00.Z', '20170120T000000Z', '2017-01-20T00:00:00,5Z',
+               '2017-01-20T24:00:00Z', '2017-01-20T00:00:60Z', '0000-01-01T00:00:00Z', '10000-01-01T00:00:00Z', '2017-02-30T00:00:00Z',
+               '2017-01-20T00:00:00.000z', '2017-01-20t00:00:00Z', ' 2017-01-20T00:00:00Z', '2017-01-20T00:00:00Z\n', '2017-W03-5T00:00:00Z'],
 }
 
 
@@ -182,6 +187,10 @@ def corrupt(j, picks):
         # one pick in seven goes to a property that only a registered extension validates, when the object has one
         hot = [p for p in ss if p and p[-1] in ('rank', 'score', 'toxicity')]
         path = hot[site_n % len(hot)] if hot and site_n % 7 == 0 else ss[site_n % len(ss)]
+        if kind == 'odd_ts':
+            tss = [p for p in ss if isinstance(get_at(j, p), str) and len(get_at(j, p)) >= 20 and get_at(j, p)[4:5] == '-' and get_at(j, p).endswith('Z')]
+            if tss:
+                path = tss[site_n % len(tss)]
         old = get_at(j, path)
         k = kind
         if kind_of_json(old) == ('list' if k == 'nested' else k) and k not in ('nested', 'empty'):
@@ -303,7 +312,7 @@ class C17(Profile):
             else:
                 name = 'marking-definition'
             op = {'op': U.weighted(rng, entries), 'src': src, 'ver': ver, 'name': name, 'n': index * 100 + n, 'gm': rng.random() < 0.3,
-                  'picks': [[rng.randrange(10 ** 6), rng.choice(kinds), rng.randrange(10)] for _ in range(rng.choice([1, 1, 1, 2, 3]))],
+                  'picks': [[rng.randrange(10 ** 6), rng.choice(kinds), rng.randrange(1000)] for _ in range(rng.choice([1, 1, 1, 2, 3]))],
                   'allow_custom': rng.random() < 0.5, 'ls_key': rng.randrange(100), 'pos': rng.randrange(3)}
             ops.append(op)
         return {'config': {'m_allow_custom': True, 'fs_allow_custom': True}, 'pool': [], 'ops': ops}
